@@ -17,7 +17,7 @@ from . import ir
 from .report import m_replace
 
 META = {
-    "level": "proof",
+    "level": "other",
     "explanation": (
         "Decides the structural part of C13: (R-POS-IO) on every path of every workspace function, no "
         "cursor-relative std::io::{Seek,Read,Write,BufRead} call has a receiver that is a std::fs::File reachable "
@@ -25,7 +25,7 @@ META = {
         "(depth 4); (R-UNSAFE-AUTO) unsafe Send/Sync impls in the reader closure are vacuous per rustc's trait solver; "
         "(R-SYNC-FIELDS) every field of the reader closure is Sync; (R-INTERIOR) the only interior-mutable fields are "
         "mutex-protected LimitedCache values. Together with Rust's aliasing rules (a `&self` method cannot reach `&mut` "
-        "state except through these), each concurrent call works on its own buffer and an offset-free read."),
+        "state except through these), each concurrent call works on its own buffer and an offset-free read. (Claimed as `proof` for most of the session; lowered to `other` after the seeded change C13f - completion-ordered results paired by position inside a reader - was first caught only by other checks: the obligation list was not closed. R-COMPLETION-ORDER was added.)"),
     "not_decided": "that the OS implements pread atomically; cache transparency itself (C20); the HTTP reader's remote server.",
     "trusted_base": ["rustc type checker and trait solver (Send/Sync/Freeze facts)", "std::os::unix::fs::FileExt positional reads do not touch the file offset",
                      "external crates (futures::lock::Mutex, reqwest) are sound"],
